@@ -40,6 +40,13 @@ LOCAL OnRoundTrip(e, m) ==
     ELSE IF e.w2err # "" THEN V(m, "the loaded configuration could not be written again", e.cls)
     ELSE IF ~e.same_bytes THEN V(m, "writing the loaded configuration again produces different bytes", e.cls)
     ELSE m
-Mon(e, m0) == LET m1 == IF e.ev = "RoundTrip" THEN OnRoundTrip(e, m0) ELSE m0 IN [m1 EXCEPT !.n = @ + 1]
+\* Rewrite{cmd, before, after, again, err, same_bytes}: the real `dawn tidy` ran twice on a project
+\* file whose one requirement is already minimal: the file holds the same configuration afterwards
+LOCAL OnRewrite(e, m) ==
+    IF e.err # "" THEN V(m, "rewriting the project file failed", e.cmd)
+    ELSE IF e.after # e.before THEN V(m, "rewriting the project file lost or changed part of the configuration", e.cmd)
+    ELSE IF e.again # e.after \/ ~e.same_bytes THEN V(m, "rewriting the project file a second time changed it again", e.cmd)
+    ELSE m
+Mon(e, m0) == LET m1 == IF e.ev = "RoundTrip" THEN OnRoundTrip(e, m0) ELSE IF e.ev = "Rewrite" THEN OnRewrite(e, m0) ELSE m0 IN [m1 EXCEPT !.n = @ + 1]
 RunMon(c, es) == FoldLeft(LAMBDA m, e : Mon(e, m), MonInit(c), es)
 =============================================================================
